@@ -41,6 +41,10 @@ func (childHandler) OnError(ctx context.Context, err error) {}
 //
 //	-> "READY <hostport>"          after start
 //	<- "call <hostport>"           make an outbound call to a (raw) peer; -> "CALLDONE <ok|err ...>"
+//	role relays only (forced schedules, engine_peerinput_race.go):
+//	<- "addsvc <service> <hostport>"                 -> "OK"
+//	<- "park <point> <id>" / "release <point> <id>"  -> "OK" / "RELEASED <bool>"
+//	<- "waitarrived <point> <id> <ms>"               -> "ARRIVED <bool>"
 //	stdin EOF                      exit 0
 func runChild(role string) {
 	opts := &tchannel.ChannelOptions{Logger: tchannel.NullLogger}
@@ -55,14 +59,20 @@ func runChild(role string) {
 		panic(err)
 	}
 	target := server.PeerInfo().HostPort
+	var rh *relaytest.StubRelayHost
+	var sched *Sched
 	if strings.HasPrefix(role, "relay") {
-		rh := relaytest.NewStubRelayHost()
+		rh = relaytest.NewStubRelayHost()
 		ropts := &tchannel.ChannelOptions{RelayHost: rh, Logger: tchannel.NullLogger}
 		switch role {
 		case "relayc": // cancel frames are relayed
 			ropts.DefaultConnectionOptions.PropagateCancel = true
 		case "relayt": // the "too many tombstones: delete immediately" path of relayItems.Entomb
 			ropts.RelayMaxTombs = 1
+		case "relays": // schedule points under the harness' control, cancel relayed, a 2-slot send queue
+			ropts.DefaultConnectionOptions.PropagateCancel = true
+			ropts.DefaultConnectionOptions.SendBufferSize = 2
+			sched = NewSched()
 		}
 		rly, err := tchannel.NewChannel("relay", ropts)
 		if err != nil {
@@ -87,6 +97,28 @@ func runChild(role string) {
 				fmt.Printf("CALLDONE err %v\n", strings.ReplaceAll(err.Error(), "\n", " "))
 			} else {
 				fmt.Printf("CALLDONE ok\n")
+			}
+			continue
+		}
+		if w := strings.Fields(line); sched != nil && len(w) >= 3 {
+			var id uint64
+			fmt.Sscan(w[2], &id)
+			switch w[0] {
+			case "addsvc":
+				rh.Add(w[1], w[2])
+				fmt.Printf("OK\n")
+			case "park":
+				sched.ParkAtID(w[1], uint32(id))
+				fmt.Printf("OK\n")
+			case "release":
+				sched.Unpark(key(w[1], uint32(id)))
+				fmt.Printf("RELEASED %v\n", sched.Release(key(w[1], uint32(id))))
+			case "waitarrived":
+				ms := 1000
+				if len(w) > 3 {
+					fmt.Sscan(w[3], &ms)
+				}
+				fmt.Printf("ARRIVED %v\n", sched.WaitArrived(key(w[1], uint32(id)), 1, time.Duration(ms)*time.Millisecond))
 			}
 		}
 	}
